@@ -53,6 +53,7 @@ import (
 
 	"github.com/xjslang/xjs/lexer"
 	"github.com/xjslang/xjs/parser"
+	"github.com/xjslang/xjs/sourcemap"
 
 	"xjsverif/internal/jsgen"
 	"xjsverif/internal/oracle"
@@ -246,6 +247,19 @@ func c08WithMap(cfg string) string {
 // c08Warm: the next checks reuse a Compiler that has already compiled something
 var c08Warm bool
 
+// c08Prev: the map of the previous plain compilation and what it said when it was handed out
+type c08PrevMap struct {
+	sm       *sourcemap.SourceMap
+	snapshot string
+	src, cfg string
+}
+
+var c08Prev c08PrevMap
+
+func c08MapString(sm *sourcemap.SourceMap) string {
+	return fmt.Sprintf("version=%d names=%q mappings=%s", sm.Version, sm.Names, sm.Mappings)
+}
+
 // c08BlockPlugin: the next checks parse with a lexer plugin that consumes block comments
 var c08BlockPlugin bool
 
@@ -313,6 +327,8 @@ func c08Check(c *oracleCtx, src, cfg string, steer bool) {
 	if dupStmt {
 		input["tree-edit"] = "first statement node listed again at the end"
 	}
+	parsedSrc := src
+	warmUsed := c08Warm || blockPlugin || dupStmt
 	guard(c, "", input, func() {
 		prog, errs := oaParse(src)
 		if blockPlugin {
@@ -347,6 +363,18 @@ func c08Check(c *oracleCtx, src, cfg string, steer bool) {
 		res := comp.Compile(prog)
 		code := res.Code
 		input["output"] = oaClip(code, 400)
+		// a map that was handed out earlier is not touched by later compilations
+		if c08Prev.sm != nil {
+			if now := c08MapString(c08Prev.sm); now != c08Prev.snapshot {
+				in2 := map[string]any{"src": c08Prev.src, "text": unhex(c08Prev.src), "cfg": c08Prev.cfg, "then": hexOf(src), "then-cfg": cfg}
+				c08Prev.sm = nil
+				c.violation("", "the source map of an earlier compilation changed when another program was compiled afterwards: it was "+oaClip(c08Prev.snapshot, 200)+", it is now "+oaClip(now, 200), in2)
+				return
+			}
+		}
+		if res.SourceMap != nil && !warmUsed {
+			c08Prev = c08PrevMap{sm: res.SourceMap, snapshot: c08MapString(res.SourceMap), src: hexOf(parsedSrc), cfg: cfg}
+		}
 		// class of a failure of a position-independent check / of a generated-side check
 		fail := func(what string) { c.violation(srcCls, what, input) }
 		genCls := srcCls
@@ -596,6 +624,16 @@ func oracleC08(c *oracleCtx) {
 					if oaStr(m, "tree-edit") != "" {
 						c08DupStmt = true
 						defer func() { c08DupStmt = false }()
+					}
+					if then := oaStr(m, "then"); then != "" {
+						c08Prev = c08PrevMap{}
+						c08Check(c, src, cfg, false)
+						tc := oaStr(m, "then-cfg")
+						if tc == "" {
+							tc = "cm"
+						}
+						c08Check(c, unhex(then), tc, false)
+						return
 					}
 					c08Check(c, src, cfg, false)
 				}()
